@@ -180,6 +180,8 @@ Inductive rop :=
 | RUnassign (s : id) (r : str)
 | RSubject (s : id)
 | RDelSubject (s : id)
+| RGroupAdd (b : id)       (* ontology AddChildren(Users group, b): the group becomes a parent of b *)
+| RGroupRemove (b : id)    (* ontology RemoveChildren(Users group, b) *)
 | RBegin | RCommit | RAbort
 | REnforce (s : id) (act : str) (objs : list id) (committed : bool).
 
@@ -202,6 +204,8 @@ Definition rapply (c : rcfg) (st : rst) (o : rop) : rst * err :=
   | RUnassign s r => unassign_role st s r
   | RSubject s => with_ont st (define_resource (r_ont st) s)
   | RDelSubject s => with_ont st (delete_resource (r_ont st) s)
+  | RGroupAdd b => with_ont st (define_relationship (rc_ont c) (r_ont st) group_id s_parent b)
+  | RGroupRemove b => with_ont st (delete_relationship (r_ont st) group_id s_parent b)
   | _ => (st, EOk)
   end.
 
